@@ -176,7 +176,17 @@ impl E2Run for Start {
             }
             *p2.lock().unwrap() = plan;
             let t0 = sim::now_ms();
+            // both entry points take a timeout: run_internet_with_timeout, and run_internet itself
+            // (the one the description generator calls)
+            let direct = sim::chance(1, 3);
             let status = match timeout_ms {
+                Some(t) if direct => {
+                    sim::count("probe_run_internet_called_directly_with_a_timeout");
+                    match tokio::time::timeout(Duration::from_secs(3600), elvis_core::run_internet(&machines, Some(Duration::from_millis(t)))).await {
+                        Ok(s) => s,
+                        Err(_) => ExitStatus::Status(u32::MAX),
+                    }
+                }
                 Some(t) => elvis_core::run_internet_with_timeout(&machines, Duration::from_millis(t)).await,
                 None => {
                     // without a timeout the run must still end: give it a generous virtual bound
